@@ -15,4 +15,15 @@ OBLIGATIONS = [
     pt("from_octets", "h_from_octets", "point_from_octets: only 04||X||Y with valid coordinates accepted; any length 0..66, any prefix; infinity encodings refused", bounds="lengths {0,1,2,32,33,34,64,65,66}, every prefix byte (compressed forms separately)"),
     pt("private_key_range", "h_private_key_range", "sm2_key_set_private_key accepts exactly 1 <= d <= n-2", exact=True, bounds="none (all 2^256 scalars)"),
 ]
+for el in (69, 68, 70, 4, 0):
+    OBLIGATIONS.append({"id": "C12.tls13_server_key_share.len%d" % el, "harness": "harness/C12/keyshare.c", "entry": "h_server_key_share", "units": ["tls_ext.c", "tls.c"], "remove": {"tls.c": ["tls_record_recv", "tls_record_send"]},
+                        "defs": ["-DEL=%d" % el], "unwind": 75, "timeout": 300, "tier": "quick" if el in (69, 68, 0) else "thorough",
+                        "title": "TLS 1.3 server key_share: accepted only as (sm2p256v1, 65 octets) that passed sm2_z256_point_from_octets; malformed bodies refused without over-read",
+                        "bounds": "extension body of %d arbitrary bytes (exact-size object)" % el, "stubs": ["sm2_z256_point_from_octets: recording, arbitrary verdict"]})
+for el in (71, 69, 3, 0):
+    OBLIGATIONS.append({"id": "C12.tls13_client_key_shares.len%d" % el, "harness": "harness/C12/keyshare.c", "entry": "h_client_key_shares", "units": ["tls13.c", "tls.c"],
+                        "remove": {"tls.c": ["tls_record_recv", "tls_record_send"]},
+                        "defs": ["-DEL=%d" % el], "unwind": 75, "timeout": 300, "tier": "quick" if el in (71, 3) else "thorough",
+                        "title": "tls_client_key_shares_from_bytes: imported shares passed the validating decoder; malformed lists refused without touching uninitialised data",
+                        "bounds": "key-share list of %d arbitrary bytes (exact-size object)" % el, "stubs": ["sm2_z256_point_from_octets: recording, arbitrary verdict"]})
 NOTE = "C12: imported keys and points."
